@@ -259,10 +259,20 @@ IsDupSync == Call.kind = "sync" /\ Line.first /\ Call.owner \in insync
 DueWorkers == {x \in WorkersOf(S) : x[2].cleanup_at >= 0 /\ x[2].cleanup_at <= Now2}
 DueOps == {o \in Ops(S) : o.cleanup_at >= 0 /\ o.cleanup_at <= Now2}
 DueQueues == {qi \in QIdx(S) : S.queues[qi].cleanup_at >= 0 /\ S.queues[qi].cleanup_at <= Now2}
+\* No cleanup runs at the start of this section.
+Simple == DueWorkers = {} /\ DueOps = {} /\ DueQueues = {}
+
+CommonPrefix(paths) ==
+  LET one == CHOOSE q \in paths : TRUE
+      ks == {k \in 0 .. Len(one) : \A q \in paths : Len(q) >= k /\ SubSeq(q, 1, k) = SubSeq(one, 1, k)}
+  IN SubSeq(one, 1, Max(ks))
+
 
 QueueKey(q) == <<q.prefix, q.platform, q.size_class>>
 QueueKeys(s) == {QueueKey(s.queues[qi]) : qi \in QIdx(s)}
 WorkerKeys(s) == {<<QueueKey(s.queues[x[1]]), x[2].id>> : x \in WorkersOf(s)}
+InvIn(s, qkey, p) ==
+  {i \in UNION {Rng(s.queues[qi].invs) : qi \in {k \in QIdx(s) : QueueKey(s.queues[k]) = qkey}} : i.path = p}
 
 \* A task that became COMPLETED in this section with a scheduler-made result.
 NewlyCompleted == {id \in Both(S, Post) : TaskOf(S, id).stage # "C" /\ TaskOf(Post, id).stage = "C"}
@@ -406,6 +416,15 @@ SyncChecks ==
     <<(wrong /\ ~vanished /\ t.retry < cfg.retry) =>
         (HasTask(Post, had) /\ TaskOf(Post, had).stage = "E" /\ TaskOf(Post, had).worker = c.owner /\ TaskOf(Post, had).retry = t.retry + 1),
       "C06:task-not-reissued-below-retry-limit">>,
+    \* "the invocation it last served": a worker that is idle after its
+    \* completion was accepted is remembered under the closest common
+    \* ancestor of the invocations of the task it ran (computed here from the
+    \* operations of the task, not taken from the scheduler's bookkeeping)
+    <<(accepted /\ Simple) =>
+        \A x \in WorkerIn(Post, c.owner) :
+          (x[2].task = 0 /\ x[2].has_last) =>
+            x[2].last = CommonPrefix({OpOf(S, n).inv : n \in {m \in Rng(t.ops) : HasOp(S, m)}}),
+      "C04:last-served-invocation-not-recorded">>,
     <<(wrong /\ ~vanished /\ t.retry >= cfg.retry) =>
         (HasTask(Post, had) => (TaskOf(Post, had).stage # "E" \/ TaskOf(Post, had).worker # c.owner)),
       "C06:task-reissued-beyond-retry-limit">>
@@ -515,6 +534,37 @@ InvJustified(s, qi, p) ==
 C06_NoStaleInvocations(s) ==
   \A qi \in QIdx(s) : \A ii \in DOMAIN s.queues[qi].invs : InvJustified(s, qi, s.queues[qi].invs[ii].path)
 
+\* "Least recently served": an invocation counts as served at the moment an
+\* operation below it starts executing (a task is given to a worker, or a
+\* request is merged into a task that is executing).  The scheduling checks
+\* read these times from the snapshot, so their bookkeeping is checked here.
+\* (operations of completed tasks whose queue is gone have queue = -1)
+OpInQueue(s, o, qkey) == o.queue + 1 \in QIdx(s) /\ QueueKey(s.queues[o.queue + 1]) = qkey
+StartedNow(qkey, p) ==
+  \E o \in Ops(Post) :
+    /\ OpInQueue(Post, o, qkey) /\ PathPrefix(p, o.inv)
+    /\ TaskOf(Post, o.task).stage = "E"
+    /\ (o.task \in NewlyAssigned \/ ~HasOp(S, o.name))
+\* a queued task that is completed directly (cancelled, killed, queue removed)
+\* passes through a temporary worker
+CompletedFromQueued(qkey, p) ==
+  \E o \in Ops(S) :
+    /\ OpInQueue(S, o, qkey) /\ PathPrefix(p, o.inv)
+    /\ TaskOf(S, o.task).stage = "Q" /\ o.task \in NewlyCompleted
+LastStartedChecks == <<
+    <<\A qi \in QIdx(Post) : \A i \in Rng(Post.queues[qi].invs) :
+        \* (the root has no siblings; the hook does not export its times)
+        (i.path # <<>> /\ StartedNow(QueueKey(Post.queues[qi]), i.path)) => i.last_started = Post.now,
+      "C04:invocation-not-marked-as-served-when-its-operation-started">>,
+    <<Simple =>
+        \A qi \in QIdx(Post) : \A i \in Rng(Post.queues[qi].invs) :
+          LET qkey == QueueKey(Post.queues[qi])
+              old == InvIn(S, qkey, i.path)
+          IN (i.path # <<>> /\ old # {} /\ ~StartedNow(qkey, i.path) /\ ~CompletedFromQueued(qkey, i.path)) =>
+               \A j \in old : i.last_started = j.last_started,
+      "C04:invocation-marked-as-served-without-an-operation-starting">>
+  >>
+
 CommonChecks == <<
     <<C06_NoStaleInvocations(Post), "C06:invocation-retained-without-operations-or-workers">>,
     <<\A qi \in QIdx(Post) : \A w \in Rng(Post.queues[qi].workers) : w.drained = DrainedRef(Post.queues[qi], w),
@@ -598,9 +648,6 @@ OpLess(o1, o2) ==
      \/ o1.prio = o2.prio /\ t1.exp_dur = t2.exp_dur /\ t1.queued_at < t2.queued_at
 BestOps(p) == {o \in DirectI(p) : \A e \in DirectI(p) : ~OpLess(e, o)}
 
-InvIn(s, qkey, p) ==
-  {i \in UNION {Rng(s.queues[qi].invs) : qi \in {k \in QIdx(s) : QueueKey(s.queues[k]) = qkey}} : i.path = p}
-
 OnPickedPath(p) == CTid # 0 /\ \E n \in Rng(TaskOf(CSnap, CTid).ops) : PathPrefix(p, OpOf(CSnap, n).inv)
 
 LastStartedI(p) ==
@@ -663,11 +710,6 @@ AllowedAt(p, keys, lims, sts) ==
                       IF cont THEN Tail(sts) ELSE <<>>)
          : b \in BestChildren(p)}
 
-CommonPrefix(paths) ==
-  LET one == CHOOSE q \in paths : TRUE
-      ks == {k \in 0 .. Len(one) : \A q \in paths : Len(q) >= k /\ SubSeq(q, 1, k) = SubSeq(one, 1, k)}
-  IN SubSeq(one, 1, Max(ks))
-
 \* The invocation the worker last served, as of the moment it chooses.
 PickLast ==
   LET ws == WorkerIn(S, Call.owner)
@@ -679,8 +721,6 @@ PickLast ==
 PickStick ==
   LET ws == WorkerIn(S, Call.owner) IN
     IF ws = {} THEN [k \in 1 .. Len(Post.queues[PickQ].limits) |-> -1] ELSE (CHOOSE x \in ws : TRUE)[2].stick
-
-Simple == DueWorkers = {} /\ DueOps = {} /\ DueQueues = {}
 
 PickChecks ==
   IF Picked = {} \/ ~Simple \/ Cardinality(NewlyAssigned) # 1 THEN <<>>
@@ -729,7 +769,7 @@ SecChecks ==
   \o (IF Call.kind = "execute" /\ Line.first THEN ExecChecks ELSE <<>>)
   \o (IF Call.kind = "sync" /\ ~IsDupSync THEN SyncChecks ELSE <<>>)
   \o (IF IsDupSync THEN DupSyncChecks ELSE <<>>)
-  \o RetryChecks \o BgChecks \o LearnerChecks \o PickChecks \o HandOffChecks
+  \o RetryChecks \o BgChecks \o LearnerChecks \o PickChecks \o HandOffChecks \o LastStartedChecks
 
 TSec ==
   /\ IsEvent("sec")
